@@ -118,6 +118,7 @@ def oracle_history(case):
         # the default backup may be asked for by leaving the name out
         create_name = None if (name == BackupManager.DEFAULT_BACKUP_NAME and case.get("implicit_name")) else name
         man = BackupManager(root)
+        stale = BackupManager(root)        # a second manager object that existed before the backup was made
         sel = [os.path.join(root, f) for f in case["selected"]]
         ok = man.create_backup(sel, backup_name=create_name, verbose=False)
         if ok is not True:
@@ -194,7 +195,10 @@ def oracle_history(case):
                     out.bad("backup-not-listed-after-reopen", name)
             elif k == "create_again":
                 before = snapshot_dir(backup_dir)
-                res = man.create_backup(sel, backup_name=create_name, verbose=False)
+                who = stale if op.get("tasks", [""])[0] == TASKS[0] else man     # half of the time the older object
+                if who is stale:
+                    classes.add("create-again-by-older-manager")
+                res = who.create_backup(sel, backup_name=create_name, verbose=False)
                 if res is not False:
                     out.bad("existing-backup-not-refused", repr(res))
                 if snapshot_dir(backup_dir) != before:
